@@ -186,10 +186,11 @@ fn build(case: &Value) -> (Vec<u8>, bgp::PeerCodec) {
     let attr2 = case["attr2"].as_str().unwrap();
     let corrupt2 = case["corrupt2"].as_str().unwrap();
     let ibgp = case["peer"] == "ibgp";
+    let mix = base == "mix";
     let v6 = base.starts_with("v6");
     let wd = base.ends_with("_wd");
     let mut attrs: Vec<A> = Vec::new();
-    if v6 {
+    if v6 || mix {
         attrs.push(mp_reach());
         if wd {
             attrs.push(a(0x80, 15, vec![0, 2, 1, 48, 0x20, 0x01, 0x0d, 0xb8, 0x00, 0x09]));
@@ -258,6 +259,7 @@ fn main() {
         let j: Value = serde_json::from_str(&line).unwrap();
         let case = &j["case"];
         let v6 = case["base"].as_str().unwrap().starts_with("v6");
+        let mix = case["base"] == "mix";
         let codes: Vec<u8> = ["attr", "attr2"]
             .iter()
             .map(|k| match case[*k].as_str().unwrap() {
@@ -282,6 +284,9 @@ fn main() {
             };
             let ann = if v6 { &ann6 } else { &ann4 };
             let wdn = if v6 { &wd6 } else { &wd4 };
+            // the second announced prefix of a mixed UPDATE (IPv6, through MP_REACH)
+            let mut installed_b = false;
+            let mut withdrawn_b = false;
             let mut installed = false;
             let mut withdrawn_ann = false;
             let mut withdrawn_wd = false;
@@ -290,6 +295,9 @@ fn main() {
             for m in &msgs {
                 match m {
                     bgp::Message::Update(bgp::Update::Reach { entries, attr, nexthop, .. }) => {
+                        if mix && entries.iter().any(|e| e.nlri == ann6) {
+                            installed_b = true;
+                        }
                         if entries.iter().any(|e| &e.nlri == ann) {
                             installed = true;
                             for (i, code) in codes.iter().enumerate() {
@@ -308,6 +316,9 @@ fn main() {
                         }
                     }
                     bgp::Message::Update(bgp::Update::Unreach { entries, .. }) => {
+                        if mix && entries.iter().any(|e| e.nlri == ann6) {
+                            withdrawn_b = true;
+                        }
                         if entries.iter().any(|e| &e.nlri == ann) {
                             withdrawn_ann = true;
                         }
@@ -318,7 +329,10 @@ fn main() {
                     _ => {}
                 }
             }
-            let outcome = if installed {
+            let outcome = if mix && (installed != installed_b || withdrawn_ann != withdrawn_b) {
+                // one of the two announced prefixes was installed / withdrawn and the other was not
+                "partial"
+            } else if installed {
                 "installed"
             } else if withdrawn_ann {
                 "withdraw"
